@@ -32,7 +32,10 @@ type Config struct {
 // ParseConfig parses the config from the CJ_STATION_CONFIG environment
 // variable.
 func ParseConfig() (*Config, error) {
-	var c Config
+	// Every key of the registration section is optional; allocate the section up
+	// front so that a file setting none of them does not leave a nil *RegConfig
+	// behind for ParseBlocklists, NewRegistrationManager and OnReload to dereference.
+	c := Config{RegConfig: &RegConfig{}}
 	var envPath = os.Getenv("CJ_STATION_CONFIG")
 	_, err := toml.DecodeFile(envPath, &c)
 	if err != nil {
